@@ -33,8 +33,8 @@ pub static PROP: Prop = Prop {
         "handle_incoming is called the way the daemon does: T1 = local clock at the last send, T4 = local clock at delivery",
     ],
     profiles: Profiles::Both,
-    cases: |t| t.pick(6_000, 120_000),
-    budget_s: |t| t.pick(40, 500),
+    cases: |t| t.pick(40_000, 800_000),
+    budget_s: |t| t.pick(60, 900),
     run,
     min_nontrivial: 80,
     required_counters: &[
